@@ -3,7 +3,9 @@
 
    Main results
      parse_tokens_of       : syms_of m = Some syms -> parse_tokens (formula ++ / ++ edges ++ attrs) = Some (ast_of m syms)
-     tokens_of_parse       : tokens_of m = Some ts -> exists syms, syms_of m = Some syms /\ parse_tokens ts = Some (ast_of m syms)
+     tokens_of_parse       : syms_of m = Some syms -> tokens_of m = Some ts -> parse_tokens ts = Some (ast_of m syms)
+     tokens_of_parse_ex    : tokens_of m = Some ts -> exists syms, syms_of m = Some syms /\ parse_tokens ts = Some (ast_of m syms)
+     tokens_of_Sentence    : with pos_attrs, the token list is a sentence of the token grammar of ParseProofs
      expand_ast_items_perm : the formula's atom multiset is the molecule's multiset of atomic numbers
    No hypothesis on labels, bonds or attribute values is needed. *)
 From Coq Require Import List NArith ZArith Bool Lia Permutation Sorting.Sorted String.
@@ -250,8 +252,8 @@ Proof. intros K I s H. apply K, I, H. Qed.
 Lemma known_flat_map {C} (F : N -> text -> C) l : known l ->
   flat_map (fun s => match z_of_symbol s with Some z => [F z s] | None => [] end) l = map (fun s => F (zof s) s) l.
 Proof.
-  intros K. induction l as [|s l IH]; simpl; [reflexivity|].
-  rewrite (known_zof (s :: l) s K) by (left; reflexivity). simpl. f_equal.
+  intros K. induction l as [|s l IH]; cbn [flat_map map]; [reflexivity|].
+  rewrite (known_zof (s :: l) s K) by (left; reflexivity). cbn [app]. f_equal.
   apply IH. eapply known_incl; [exact K | apply incl_tl, incl_refl].
 Qed.
 Lemma zof_C : zof (t "C") = 6%N.
@@ -272,7 +274,7 @@ Qed.
 (* the symbols of a graph whose atomic numbers all have a symbol are known *)
 Lemma all_some_known zs syms : map symbol_of zs = map Some syms -> known syms.
 Proof.
-  revert syms. induction zs as [|z zs IH]; intros [|s syms] H; simpl in H; try discriminate.
+  revert syms. induction zs as [|z zs IH]; intros [|s syms] H; cbn [map] in H; try discriminate.
   - intros s [].
   - inversion H as [[H1 H2]]. intros s' [<-|H']; [exists z; apply symbol_of_z_of_symbol, H1 | apply (IH _ H2), H'].
 Qed.
@@ -333,7 +335,7 @@ Lemma sym_tokens_Items syms l : (forall s, In s l -> In s syms) ->
   Items (flat_map (sym_tokens syms) l)
         (flat_map (fun s => match z_of_symbol s with Some z => [(z, Z.of_N (count_text s syms))] | None => [] end) l).
 Proof.
-  induction l as [|s l IH]; intros H; simpl; [constructor|].
+  induction l as [|s l IH]; intros H; cbn [flat_map]; [constructor|].
   apply Items_app; [|apply IH; intros x Hx; apply H; right; exact Hx].
   unfold sym_tokens. destruct (z_of_symbol s); [|constructor].
   apply formula_item_Items, count_text_pos, H. left; reflexivity.
@@ -341,6 +343,10 @@ Qed.
 
 Theorem formula_tokens_Items syms : Items (formula_tokens syms) (ast_items syms).
 Proof. rewrite formula_tokens_hill. apply sym_tokens_Items. apply hill_syms_incl. Qed.
+
+Corollary parse_items_formula_tokens syms fuel rest : (length (formula_tokens syms) <= fuel)%nat ->
+  parse_items fuel (formula_tokens syms ++ TSlash :: rest) = (ast_items syms, TSlash :: rest).
+Proof. apply (parse_items_complete (formula_tokens_Items syms)). Qed.
 
 (* ====================================================================== *)
 (* 5.  (b) Hill order is the order of the grammar rules                    *)
@@ -430,6 +436,11 @@ Qed.
 
 Theorem edge_tokens_Tuples {P B} (m : mol P B) : Tuples (edge_tokens m) (ast_tuples m).
 Proof. exact (tuples_of_pairs (isort pair_leb (map nbond (bonds m)))). Qed.
+
+Corollary parse_tuples_edge_tokens {P B} (m : mol P B) fuel rest :
+  (length (edge_tokens m) <= fuel)%nat -> not_lp rest ->
+  parse_tuples fuel (edge_tokens m ++ rest) = (ast_tuples m, rest).
+Proof. apply (parse_tuples_complete (edge_tokens_Tuples m)). Qed.
 
 Lemma edge_tokens_length {P B} (m : mol P B) : length (edge_tokens m) = (5 * length (bonds m))%nat.
 Proof.
@@ -528,7 +539,7 @@ Proof.
     + repeat (rewrite app_length; cbn [length]). lia.
 Qed.
 
-Theorem tokens_of_parse : forall P B (m : mol P B) ts, tokens_of m = Some ts ->
+Theorem tokens_of_parse_ex : forall P B (m : mol P B) ts, tokens_of m = Some ts ->
   exists syms, syms_of m = Some syms /\ parse_tokens ts = Some (ast_of m syms).
 Proof.
   intros P B m ts H. unfold tokens_of in H. fold (syms_of m) in H.
@@ -538,10 +549,10 @@ Proof.
   destruct (attr_tokens m); reflexivity.
 Qed.
 
-Corollary tokens_of_parse' : forall P B (m : mol P B) syms ts, syms_of m = Some syms -> tokens_of m = Some ts ->
+Corollary tokens_of_parse : forall P B (m : mol P B) syms ts, syms_of m = Some syms -> tokens_of m = Some ts ->
   parse_tokens ts = Some (ast_of m syms).
 Proof.
-  intros P B m syms ts Hs H. destruct (tokens_of_parse P B m ts H) as (syms' & Hs' & Hp). congruence.
+  intros P B m syms ts Hs H. destruct (tokens_of_parse_ex P B m ts H) as (syms' & Hs' & Hp). congruence.
 Qed.
 
 (* ====================================================================== *)
@@ -628,8 +639,8 @@ Qed.
 
 Lemma zof_symbols zs syms : map symbol_of zs = map Some syms -> map zof syms = zs.
 Proof.
-  revert syms. induction zs as [|z zs IH]; intros [|s syms] H; simpl in H; try discriminate; [reflexivity|].
-  inversion H as [[H1 H2]]. simpl. f_equal; [|apply IH, H2].
+  revert syms. induction zs as [|z zs IH]; intros [|s syms] H; cbn [map] in H; try discriminate; [reflexivity|].
+  inversion H as [[H1 H2]]. cbn [map]. f_equal; [|apply IH, H2].
   unfold zof. rewrite (symbol_of_z_of_symbol _ _ H1). reflexivity.
 Qed.
 
@@ -681,10 +692,10 @@ Qed.
 Theorem tokens_of_Sentence : forall P B (m : mol P B) syms ts,
   pos_attrs m -> syms_of m = Some syms -> tokens_of m = Some ts -> Sentence ts (ast_of m syms).
 Proof.
-  intros P B m syms ts Hp Hs H. apply parse_tokens_sound; [|eapply tokens_of_parse'; eassumption].
+  intros P B m syms ts Hp Hs H. apply parse_tokens_sound; [|eapply tokens_of_parse; eassumption].
   unfold tokens_of in H. fold (syms_of m) in H. rewrite Hs in H. inversion H; subst ts. clear H.
   apply Forall_app. split; [apply formula_tokens_tok_ok|].
-  apply Forall_app. split; [repeat constructor|].
+  cbn [app]. constructor; [exact I|].
   apply Forall_app. split; [apply edge_tokens_tok_ok|].
   pose proof (attr_tokens_tok_ok m Hp) as Ha.
   destruct (attr_tokens m); [constructor | constructor; [exact I | exact Ha]].
@@ -723,14 +734,14 @@ Module Example.
   Proof. vm_compute. reflexivity. Qed.
   (* the same, as an instance of the theorem *)
   Example ethanol_parse_thm : parse_tokens ts = Some (ast_of ethanol syms).
-  Proof. exact (tokens_of_parse' _ _ ethanol syms ts ethanol_syms ethanol_tokens). Qed.
+  Proof. exact (tokens_of_parse _ _ ethanol syms ts ethanol_syms ethanol_tokens). Qed.
   Example ethanol_expand : Permutation (expand (ast_items syms)) (map (@zn unit) (atoms ethanol)).
   Proof. exact (expand_ast_items_mol _ _ ethanol syms ethanol_syms). Qed.
 End Example.
 
 Print Assumptions parse_tokens_of.
+Print Assumptions tokens_of_parse_ex.
 Print Assumptions tokens_of_parse.
-Print Assumptions tokens_of_parse'.
 Print Assumptions formula_tokens_Items.
 Print Assumptions formula_ok_ast_items.
 Print Assumptions edge_tokens_Tuples.
